@@ -73,7 +73,7 @@ def wfB (tab : SymTab) (g : Genome) (l : Locus) : Bool :=
     ge.args.length == tab.arity ge.op &&
     ge.args.all (fun a => decide (i < a) && decide (a < g.rows)) &&
     (tab ge.op).argCats.all (fun k => decide (k < g.cols)) &&
-    decide (ge.op < 65536) && decide (ge.par < 2 ^ 64)
+    decide (ge.op < 4294967296) && decide (ge.par < 2 ^ 64)
 
 def mepStream (tab : SymTab) (toks : List String) : Option (String × Bool × Bool) := do
   let (g, l) ← parseMep toks
